@@ -22,7 +22,7 @@
 //!                     A case without an end op ends with C (every subsequence of a case is a case).
 //! Observation:
 //!   P:<-|where>       a panic in the connection task or a task it spawned (canonical location)
-//!   end:<0|1>         `handle_connection` returned within the watchdog (3 s after the peer's end)
+//!   end:<0|1>         `handle_connection` returned within the watchdog (1.5 s after the peer's end)
 //!   live:<-|keys>     live_sessions afterwards (`peer` = AS65001@127.0.0.1, `?..` anything else)
 //!   fin:<w|-|BAD:..>  w = every update but the last is a Bulk of routes of the session's own ingress id and the
 //!                     last is Withdraw(session id, None); - = no update at all
@@ -96,6 +96,12 @@ fn show_update(u: &Update) -> (String, bool) {
 
 enum End { Close, Reset, Silent(u64), EarlyReset }
 
+/// how long `handle_connection` gets to return after the peer has ended the connection (it takes
+/// milliseconds); VH_BGPRX_WATCHDOG_MS overrides the default of 1.5 s
+fn watchdog() -> Duration {
+    Duration::from_millis(std::env::var("VH_BGPRX_WATCHDOG_MS").ok().and_then(|v| v.parse().ok()).unwrap_or(1500))
+}
+
 pub fn run_case(line: &str) -> String {
     install_panic_recorder();
     *LAST_PANIC.lock().unwrap() = (0, String::new());
@@ -139,7 +145,7 @@ pub fn run_case(line: &str) -> String {
             drop(client);
             tokio::time::sleep(Duration::from_millis(5)).await;
             let fx = bc::start_with(server, peer.ip(), SESSION_ID, asn, hold, vec![]).await;
-            let ended = fx.finish(Duration::from_secs(3)).await;
+            let ended = fx.finish(watchdog()).await;
             return report(ended, None, full, peer_key);
         }
         let fx = bc::start_with(server, peer.ip(), SESSION_ID, asn, hold, if dup { vec![peer_key] } else { vec![] }).await;
@@ -190,7 +196,7 @@ pub fn run_case(line: &str) -> String {
             }
         }
         if matches!(end, End::Reset) { drop(wr); }
-        let ended = fx.finish(Duration::from_secs(3)).await;
+        let ended = fx.finish(watchdog()).await;
         reader.abort();
         report(ended, z, full, peer_key)
     })
